@@ -93,7 +93,12 @@ def run(ctx):
                 if a.get("k") == "const" and isinstance(a.get("v"), str):
                     strs.add(a["v"])
     ok = {"O-O", "O-O-O", "x", "+", "#"} <= strs
-    ctx.ob(rid, "writer-castling-strings", ok, "" if ok else "the SAN writer's string constants %s lack one of O-O, O-O-O, x, +, #" % sorted(strs), ctx.where(w))
+    if not ok:
+        # the writer assembles its text some other way (characters pushed one by one, a table): its literals are
+        # not string constants of uci_to_pgn itself
+        ctx.lost(rid, "the SAN writer's literals O-O, O-O-O, x, +, # as string constants of uci_to_pgn (found %s)" % sorted(strs))
+    else:
+      ctx.ob(rid, "writer-castling-strings", ok, "" if ok else "the SAN writer's string constants %s lack one of O-O, O-O-O, x, +, #" % sorted(strs), ctx.where(w))
     # ---- R3
     rid = "C14.R3"
     ctx.rule(rid, "pgn_to_bb returns Ok only when exactly one legal candidate remains", floor=1)
@@ -381,7 +386,11 @@ def r6_pattern_groups(ctx):
     f = ctx.fn(rid, BB + "pgn_to_bb")
     used = set()
     whole = []
+    # pgn_to_bb, its closures, and whatever workspace functions it reaches that take the captures (the reader may be
+    # split into helpers that are handed to iterator adaptors by name)
     fns = [f] + [g for k, g in prog.fns.items() if k.startswith(BB + "pgn_to_bb::")]
+    fns += [g for k, g in prog.fns.items() if k.startswith("inkayaku_board::") and g not in fns and not g.get("test") and any(
+        bb_["term"]["k"] == "call" and (bb_["term"]["callee"].get("key") or "").endswith("Captures::name") for bb_ in g["blocks"])]
     for g in fns:
         gex = Exprs(g)
         for b in g["blocks"]:
@@ -402,7 +411,11 @@ def r6_pattern_groups(ctx):
     undefined = sorted(used - defined)
     unused = sorted((need & defined) - used)
     ok = not undefined and not unused
-    ctx.ob(rid, "reader|asks-for-defined-groups", ok,
+    if not undefined and unused and not used:
+        ctx.lost(rid, "where the SAN reader consults the named groups of its pattern (no Captures::name call with a constant found)")
+        ok = None
+    if ok is not None:
+      ctx.ob(rid, "reader|asks-for-defined-groups", ok,
            "" if ok else "pgn_to_bb %s%s" % (("asks for groups the pattern does not define %s (always absent). " % undefined) if undefined else "", ("never consults the groups %s" % unused) if unused else ""),
            ctx.where(f), sample={"used": sorted(used)})
     ctx.ob(rid, "reader|no-decision-on-whole-match", not whole,
